@@ -683,19 +683,19 @@ SCALAR_OK = {
 
 READBACK = {
     # name: (front ends, fn(A, ctx) -> value)   ctx: dict with the constraints returned by st()
-    'model.get()': ('rd', lambda A, c: A.m.get()),
-    'x.get()': ('rd', lambda A, c: A.x.get()),
-    'y.get()': ('rd', lambda A, c: A.y.get()),
-    'x[0].get()': ('r', lambda A, c: A.x[0].get()),
-    'x()': ('rd', lambda A, c: A.x()),
-    'x[0]()': ('rd', lambda A, c: A.x[0]()),
-    'affine()': ('rd', lambda A, c: (2 * A.x + 1)()),
-    'sum()': ('rd', lambda A, c: A.x.sum()()),
-    'abs()': ('rd', lambda A, c: abs(A.y)()),
+    'model.get()': ('rdl', lambda A, c: A.m.get()),
+    'x.get()': ('rdl', lambda A, c: A.x.get()),
+    'y.get()': ('rdl', lambda A, c: A.y.get()),
+    'x[0].get()': ('rl', lambda A, c: A.x[0].get()),
+    'x()': ('rdl', lambda A, c: A.x()),
+    'x[0]()': ('rdl', lambda A, c: A.x[0]()),
+    'affine()': ('rdl', lambda A, c: (2 * A.x + 1)()),
+    'sum()': ('rdl', lambda A, c: A.x.sum()()),
+    'abs()': ('rdl', lambda A, c: abs(A.y)()),
     'norm()': ('rd', lambda A, c: _rs().norm(A.x)()),
     'biaffine()': ('rd', lambda A, c: (A.x @ A.z)(A.z.assign(np.zeros(2)))),
-    'lin.dual()': ('r', lambda A, c: c['lin'].dual()),
-    'bounds.dual()': ('r', lambda A, c: c['bnd'].dual()),
+    'lin.dual()': ('rl', lambda A, c: c['lin'].dual()),
+    'bounds.dual()': ('rl', lambda A, c: c['bnd'].dual()),
     'ldr.get()': ('r', lambda A, c: A.ldr.get()),
     'ldr.get(z)': ('r', lambda A, c: A.ldr.get(A.z)),
     'ldr()': ('r', lambda A, c: A.ldr(A.z.assign(np.zeros(2)))),
@@ -703,37 +703,57 @@ READBACK = {
     'v.get(z)': ('d', lambda A, c: A.v.get(A.z)),
     'v()': ('d', lambda A, c: A.v(A.z.assign(np.zeros(2)))),
 }
+READBACK['optimal()'] = ('rdl', lambda A, c: (A.m.optimal() or None))      # False is the only honest answer
+# failure kinds and the interfaces that support the program class (def / ort ignore cones: LP and MILP only)
 STATES = ['unsolved', 'infeasible', 'unbounded']
 SOLVERS = ['def', 'ort', 'eco', 'grb']
+FAIL_STATES = {
+    'infeasible': ('rdl', SOLVERS),            # infeasible LP
+    'unbounded': ('rdl', SOLVERS),             # unbounded LP
+    'stale-infeasible': ('rdl', SOLVERS),      # solved, then made infeasible and solved again
+    'infeasible-milp': ('rdl', SOLVERS),       # binaries b0 + b1 >= 3
+    'infeasible-robust': ('rd', SOLVERS),      # x@z >= 1 for all z in a box containing 0
+    'infeasible-socp': ('rds', ['eco', 'grb']),  # norm(x) <= 1 and x0 >= 2   (s: direct socp model, not lp)
+}
 
 
 def failed_model(fe, state, solver):
-    """A model in the given state (with adaptive pieces so that every read-back method is meaningful)."""
+    """A model that is in the given state BY CONSTRUCTION (with adaptive pieces so that every read-back method is
+    meaningful).  fe in ro / dro / lp / socp (direct deterministic models)."""
     rs = B.init()
-    A = M(fe)
+    rso = rs['rso']
+    direct = fe in DIRECT_MODELS
+    A = D(fe) if direct else M(fe)
     m = A.m
     ctx = {}
+    x, y, w = A.x, A.y, A.w
+    b = m.dvar(2, 'B') if state == 'infeasible-milp' else None      # (declared before any constraint)
     if fe == 'ro':
         A.ldr.adapt(A.z)
-        ctx['lin'] = m.st(A.x[0] + A.x[1] >= 1)
-        ctx['bnd'] = m.st(A.x <= 5)
         m.st((A.ldr <= 5).forall(A.zset()), (A.ldr >= -5).forall(A.zset()))
-        m.st(A.y >= -5, A.y <= 5)
-        if state == 'infeasible':
-            m.st(A.x[0] + A.x[1] <= 0)
-        if state == 'unbounded':
-            m.min(A.x[0] - A.w)
-        else:
-            m.min(A.x[0] + A.x[1])
-    else:
+    elif fe == 'dro':
         A.v.adapt(A.z)
-        m.st(A.x[0] + A.x[1] >= 1, A.x <= 5, A.v <= 5, A.v >= -5, A.y >= -5, A.y <= 5)
-        if state == 'infeasible':
-            m.st(A.x[0] + A.x[1] <= 0)
-        if state == 'unbounded':
-            m.minsup(A.x[0] - A.w, A.fset)
-        else:
-            m.minsup(A.x[0] + A.x[1], A.fset)
+        m.st(A.v <= 5, A.v >= -5)
+    ctx['lin'] = m.st(x[0] + x[1] >= 1)
+    ctx['bnd'] = m.st(x <= 5)
+    m.st(y >= -5)
+    m.st(y <= 5)
+    if state == 'infeasible':
+        m.st(x[0] + x[1] <= 0)
+    elif state == 'infeasible-milp':
+        m.st(b[0] + b[1] >= 3)
+    elif state == 'infeasible-socp':
+        m.st(rso.norm(x) <= 1)
+        m.st(x[0] >= 2)
+    elif state == 'infeasible-robust':
+        con = (x @ A.z >= 1)
+        m.st(con.forall(A.zset()) if fe == 'ro' else con.forall(A.fset))
+    obj = (x[0] - w) if state == 'unbounded' else (x[0] + x[1])
+    if fe == 'dro':
+        m.minsup(obj, A.fset)
+    else:
+        m.min(obj)
+
     def solve():
         if solver == 'def':
             m.solve(display=False)
@@ -772,3 +792,55 @@ def zero_model(fe, solver):
     else:
         m.solve(rs[solver], display=False)
     return A, ctx
+
+
+# ------------------------------------------------------------------------------------------------------------
+# solver parameters given for one model must not stay in force for the next solve of any model
+LEAK_PARAMS = {
+    'SolutionLimit=1': {'SolutionLimit': 1},
+    'Cutoff=-1e6': {'Cutoff': -1e6},
+    'TimeLimit=0': {'TimeLimit': 0},
+    'BestObjStop=-1': {'BestObjStop': -1.0},
+    'NodeLimit=0+Heuristics=0': {'NodeLimit': 0, 'Heuristics': 0},
+}
+KNAP = [
+    {'v': [10, 13, 18, 31, 7, 15], 'w': [2, 3, 4, 6, 1, 3], 'cap': 10},
+    {'v': [24, 13, 23, 15, 16, 11], 'w': [12, 7, 11, 8, 9, 6], 'cap': 26},
+    {'v': [9, 11, 13, 15, 17, 19], 'w': [3, 4, 5, 6, 7, 8], 'cap': 17},
+    {'v': [20, 5, 10, 40, 15, 25], 'w': [1, 2, 3, 8, 7, 4], 'cap': 12},
+]
+
+
+def knap_optimum(d):
+    """brute force over all 2^n selections"""
+    import itertools
+    best = 0
+    for sel in itertools.product((0, 1), repeat=len(d['v'])):
+        if sum(a * b for a, b in zip(sel, d['w'])) <= d['cap']:
+            best = max(best, sum(a * b for a, b in zip(sel, d['v'])))
+    return float(best)
+
+
+class Knap:
+    def __init__(self, fe, d):
+        rs = B.init()
+        self.fe = fe
+        if fe == 'ro':
+            self.m = rs['ro'].Model()
+        elif fe == 'dro':
+            self.m = rs['dro'].Model(2)
+        else:
+            import importlib
+            self.m = importlib.import_module('rsome.' + fe).Model()
+        self.b = self.m.dvar(len(d['v']), 'B')
+        self.m.st(np.array(d['w'], dtype=float) @ self.b <= d['cap'])
+        self.m.max(np.array(d['v'], dtype=float) @ self.b)
+
+    def solve(self, solver, params=None):
+        rs = B.init()
+        kw = {} if params is None else {'params': params}
+        if solver == 'def':
+            self.m.solve(display=False, **kw)
+        else:
+            self.m.solve(rs[solver], display=False, **kw)
+        return float(self.m.get())
